@@ -85,6 +85,8 @@ def show(t, depth=0):
         return "phi{%s}" % " | ".join(sorted(show(x, d) for x in t[1]))
     if k == "local":
         return "%s" % (t[2] or "_%d" % t[1])
+    if k == "edited":
+        return "%s edited in place (%s)" % (show(t[1], d), "; ".join(t[2]))
     return "%s%r" % (k, t[1:])
 
 
@@ -440,6 +442,69 @@ class Prov:
                     return l - 1
                 return None
         return None
+
+    def tampered(self, op, bb, idx="term", _depth=0):
+        """partial writes to / mutable borrows of the local(s) an operand's value lives in on its way to this use.
+
+        Terms are built from whole-local definitions; `x.f = v` or `&mut x` between the definition of x and a use of x changes
+        the value without being a definition.  Follows plain moves / copies and `Clone::clone(&y)` of bare locals.  Returns
+        descriptions ('protected.original_data is assigned at line 257'); empty if the value is what its term says."""
+        out = []
+        if op["k"] not in ("copy", "move") or _depth > 8:
+            return out
+        l = op["place"]["l"]
+        fn = self.fn
+        if not op["place"]["p"] or op["place"]["p"][0][0] != "deref":
+            name = fn.local_name(l) or "_%d" % l
+            for b in fn.blocks:
+                if b["cleanup"]:
+                    continue
+                for s in b["stmts"]:
+                    if s["k"] != "assign":
+                        continue
+                    d = s["dst"]
+                    if d["l"] == l and d["p"] and d["p"][0][0] != "deref":
+                        out.append("%s.%s is assigned separately at line %s" % (
+                            name, ".".join(str(e[2]) for e in d["p"] if e[0] == "field"), s.get("line")))
+                    rv = s["rv"]
+                    if rv["k"] == "ref" and rv.get("mut") and not rv.get("fake") and rv["place"]["l"] == l \
+                            and not (rv["place"]["p"] and rv["place"]["p"][0][0] == "deref"):
+                        out.append("%s is borrowed mutably at line %s" % (name, s.get("line")))
+        if self._defs is None:
+            self._collect_defs()
+        if op["place"]["p"]:
+            return out
+        ds = self.reaching(l, bb, idx)
+        for di in ds:
+            if di == -1:
+                continue
+            _, dbb, didx, payload = self._defs[di]
+            if didx == "term":
+                t = payload
+                if callee_path(t) == "core::clone::Clone::clone" and len(t["args"]) == 1:
+                    out.extend(self._tampered_ref(t["args"][0], dbb, "term", _depth + 1))
+            elif payload["k"] == "use":
+                out.extend(self.tampered(payload["op"], dbb, didx, _depth + 1))
+        return out
+
+    def _tampered_ref(self, op, bb, idx, _depth):
+        """tampered() for `&y` handed to clone: follow the reference temp to the bare local it borrows"""
+        if op["k"] not in ("copy", "move") or op["place"]["p"] or _depth > 8:
+            return []
+        if self._defs is None:
+            self._collect_defs()
+        out = []
+        for di in self.reaching(op["place"]["l"], bb, idx):
+            if di == -1:
+                continue
+            _, dbb, didx, payload = self._defs[di]
+            if didx == "term":
+                continue
+            if payload["k"] == "ref" and not payload["place"]["p"]:
+                out.extend(self.tampered({"k": "copy", "place": payload["place"]}, dbb, didx, _depth + 1))
+            elif payload["k"] == "use":
+                out.extend(self._tampered_ref(payload["op"], dbb, didx, _depth + 1))
+        return out
 
     def operand_term(self, op, bb, idx):
         k = op["k"]
